@@ -330,19 +330,20 @@ Lemma new_tbl_spec rows cols w h t :
 Proof.
   unfold new_tbl. destruct rows as [|r']; [discriminate|]. destruct cols as [|c']; [discriminate|].
   destruct (forallb in_coord (distribute (S c') w) && forallb in_coord (distribute (S r') h)); [|discriminate].
-  intros E; injection E as <-. cbn [grid widths heights cx cy].
-  assert (HR : rect_grid (S c') (repeat (repeat new_cell (S c')) (S r'))).
+  set (g0 := repeat (repeat new_cell (S c')) (S r')).
+  assert (Hlen : length g0 = S r') by apply repeat_length.
+  assert (HR : rect_grid (S c') g0).
   { unfold rect_grid. apply Forall_forall. intros row Hin. apply repeat_spec in Hin. subst.
     apply repeat_length. }
-  assert (HG : forall r c cl, get (repeat (repeat new_cell (S c')) (S r')) r c = Some cl -> cl = new_cell)
+  assert (HG : forall r c cl, get g0 r c = Some cl -> cl = new_cell)
     by (intros; eapply get_repeat; eauto).
-  split; [lia|]. split; [lia|]. split; [exact (repeat_length (repeat new_cell (S c')) (S r'))|]. split; [exact HR|].
+  clearbody g0.
+  intros E; injection E as <-. cbn [grid widths heights cx cy].
+  split; [lia|]. split; [lia|]. split; [exact Hlen|]. split; [exact HR|].
   split; [apply distribute_length|]. split; [apply distribute_length|].
   split; [apply distribute_sum; lia|]. split; [apply distribute_sum; lia|].
   split; [reflexivity|]. split; [reflexivity|]. split; [exact HG|].
-  unfold Inv_at; cbn [grid widths heights]. rewrite !distribute_length.
-  change (length (repeat (repeat new_cell (S c')) (S r'))) with (length (repeat (repeat new_cell (S c')) (S r'))).
-  rewrite (repeat_length (repeat new_cell (S c')) (S r')).
+  unfold Inv_at; cbn [grid widths heights]. rewrite !distribute_length, Hlen.
   split; [exact HR|]. split; [reflexivity|].
   split. { intros r c cl Hg. apply HG in Hg; subst; discriminate. }
   split; [constructor|]. split; [constructor|].
@@ -430,4 +431,659 @@ Proof.
   eexists. exists 0, (-5)%Z. eexists. split; [vm_compute; reflexivity|].
   split; [split; vm_compute; reflexivity|].
   split; [vm_compute; reflexivity|]. vm_compute. discriminate.
+Qed.
+
+(* ================================================================== invariant: easy operations *)
+Lemma Inv_at_sizes t t' regs :
+  Inv_at t regs -> grid t' = grid t -> length (widths t') = length (widths t) ->
+  length (heights t') = length (heights t) -> Inv_at t' regs.
+Proof. unfold Inv_at. intros H -> -> ->. exact H. Qed.
+
+(** a grid update that keeps the four attributes of every cell and its paragraphs non-empty *)
+Lemma Inv_at_map_flags t regs f :
+  Inv_at t regs ->
+  (forall r c cl, get (grid t) r c = Some cl ->
+                  cell_flags (f r c cl) = cell_flags cl /\ paras (f r c cl) <> []) ->
+  Inv_at (with_grid t (map_grid f (grid t))) regs.
+Proof.
+  intros (HR & HL & HP & Hok & Hnd & Hdj & Hfl) Hf. unfold Inv_at, with_grid; cbn [grid widths heights].
+  rewrite length_map_grid.
+  split; [apply rect_map_grid; exact HR|]. split; [exact HL|].
+  split.
+  { intros r c cl Hg. rewrite get_map_grid in Hg.
+    destruct (get (grid t) r c) as [cl0|] eqn:E; simpl in Hg; [|discriminate].
+    injection Hg as <-. apply (Hf _ _ _ E). }
+  split; [exact Hok|]. split; [exact Hnd|]. split; [exact Hdj|].
+  intros r c cl Hg. rewrite get_map_grid in Hg.
+  destruct (get (grid t) r c) as [cl0|] eqn:E; simpl in Hg; [|discriminate].
+  injection Hg as <-. destruct (Hf _ _ _ E) as [-> _]. apply (Hfl _ _ _ E).
+Qed.
+
+Lemma step_SetText_Inv t regs r c s : Inv_at t regs -> Inv_at (fst (step t (SetText r c s))) regs.
+Proof.
+  intros HI. simpl. unfold set_text. destruct (get (grid t) r c); simpl; auto.
+  apply Inv_at_map_flags; auto.
+  intros r' c' cl Hg. destruct ((r' =? r) && (c' =? c)); simpl.
+  - split; auto. apply split_on_nonnil.
+  - split; auto. destruct HI as (_ & _ & HP & _). eapply HP; eauto.
+Qed.
+
+Lemma step_SetRowH_Inv t regs i h : Inv_at t regs -> Inv_at (fst (step t (SetRowH i h))) regs.
+Proof.
+  intros HI. simpl. unfold set_row_h.
+  destruct (i <? length (heights t)); simpl; auto.
+  destruct (in_coord h); simpl; auto.
+  destruct (in_poscoord _); simpl; (eapply Inv_at_sizes; [exact HI| | |]); simpl; auto using length_set_nth.
+Qed.
+
+Lemma step_SetColW_Inv t regs j w : Inv_at t regs -> Inv_at (fst (step t (SetColW j w))) regs.
+Proof.
+  intros HI. simpl. unfold set_col_w.
+  destruct (j <? length (widths t)); simpl; auto.
+  destruct (in_coord w); simpl; auto.
+  destruct (in_poscoord _); simpl; (eapply Inv_at_sizes; [exact HI| | |]); simpl; auto using length_set_nth.
+Qed.
+
+Lemma step_MergeForeign t r c :
+  fst (step t (MergeForeign r c)) = t /\
+  (forall cl, get (grid t) r c = Some cl -> snd (step t (MergeForeign r c)) = Err ValueErr) /\
+  (get (grid t) r c = None -> snd (step t (MergeForeign r c)) = Err IndexErr).
+Proof.
+  simpl. unfold merge_foreign. destruct (get (grid t) r c); simpl; repeat split; auto; discriminate.
+Qed.
+
+(* ================================================================== split *)
+Definition remove_reg (rg : region) (regs : list region) : list region :=
+  filter (fun x => if region_eq_dec x rg then false else true) regs.
+
+Lemma In_remove_reg rg regs x : In x (remove_reg rg regs) <-> In x regs /\ x <> rg.
+Proof.
+  unfold remove_reg. rewrite filter_In. destruct (region_eq_dec x rg); intuition congruence.
+Qed.
+
+Lemma find_remove_reg rg regs r c :
+  in_reg rg r c = false ->
+  find (fun x => in_reg x r c) (remove_reg rg regs) = find (fun x => in_reg x r c) regs.
+Proof.
+  intros Hf. unfold remove_reg. induction regs as [|x l IH]; simpl; auto.
+  destruct (region_eq_dec x rg) as [->|Hn]; simpl.
+  - rewrite Hf. exact IH.
+  - destruct (in_reg x r c); auto.
+Qed.
+
+(** What split does, given the region [rg] whose origin is the cell addressed. *)
+Lemma split_origin t regs r c cl rg :
+  Inv_at t regs -> get (grid t) r c = Some cl -> In rg regs -> rtop rg = r -> rleft rg = c ->
+  rowSpan cl = rh rg -> gridSpan cl = rw rg -> is_merge_origin cl = true ->
+  split (grid t) r c =
+    Ok (map_grid (fun r' c' cl' => if in_reg rg r' c' then plain_cell cl' else cl') (grid t)).
+Proof.
+  intros HI Hg Hin Ht Hl Hrs Hgs Ho. unfold split. rewrite Hg, Ho. simpl negb. cbv iota.
+  destruct HI as (HR & _ & _ & Hok & _).
+  rewrite Forall_forall in Hok. destruct (Hok _ Hin) as (H1 & H2 & _ & H4 & H5).
+  rewrite Hrs, Hgs.
+  replace (rh rg =? 0) with false by (symmetry; apply Nat.eqb_neq; lia).
+  replace (rw rg =? 0) with false by (symmetry; apply Nat.eqb_neq; lia). simpl orb. cbv iota.
+  destruct (get_lt_Some _ (grid t) (r + rh rg - 1) (c + rw rg - 1) HR) as [cl2 ->]; try lia.
+  unfold in_reg. rewrite Ht, Hl. reflexivity.
+Qed.
+
+Lemma split_Inv_at t regs rg :
+  Inv_at t regs -> In rg regs ->
+  Inv_at (with_grid t (map_grid (fun r' c' cl' => if in_reg rg r' c' then plain_cell cl' else cl') (grid t)))
+         (remove_reg rg regs).
+Proof.
+  intros (HR & HL & HP & Hok & Hnd & Hdj & Hfl) Hin.
+  unfold Inv_at, with_grid; cbn [grid widths heights]. rewrite length_map_grid.
+  split; [apply rect_map_grid; exact HR|]. split; [exact HL|].
+  split.
+  { intros r' c' cl' Hg'. rewrite get_map_grid in Hg'.
+    destruct (get (grid t) r' c') as [cl0|] eqn:E; simpl in Hg'; [|discriminate].
+    injection Hg' as <-. destruct (in_reg rg r' c'); simpl; eapply HP; eauto. }
+  split.
+  { rewrite Forall_forall in *. intros x Hx. apply In_remove_reg in Hx as [Hx _]. auto. }
+  split.
+  { unfold remove_reg. apply NoDup_filter. exact Hnd. }
+  split.
+  { intros a b Ha Hb. apply In_remove_reg in Ha as [Ha _]. apply In_remove_reg in Hb as [Hb _].
+    exact (Hdj a b Ha Hb). }
+  intros r' c' cl' Hg'. rewrite get_map_grid in Hg'.
+  destruct (get (grid t) r' c') as [cl0|] eqn:E; simpl in Hg'; [|discriminate].
+  injection Hg' as <-. unfold expected.
+  destruct (in_reg rg r' c') eqn:Hr.
+  - (* inside the split region: plain, and no remaining region contains the cell *)
+    replace (find (fun x => in_reg x r' c') (remove_reg rg regs)) with (@None region).
+    + reflexivity.
+    + symmetry. apply find_none_iff. intros x Hx. apply In_remove_reg in Hx as [Hx Hne].
+      apply (Hdj rg x Hin Hx (not_eq_sym Hne) _ _ Hr).
+  - rewrite find_remove_reg by exact Hr. apply (Hfl _ _ _ E).
+Qed.
+
+Lemma step_Split_Inv t regs r c :
+  Inv_at t regs -> exists regs', Inv_at (fst (step t (Split r c))) regs'.
+Proof.
+  intros HI. simpl.
+  destruct (get (grid t) r c) as [cl|] eqn:Hg;
+    [|unfold split; rewrite Hg; simpl; eauto].
+  destruct (is_merge_origin cl) eqn:Ho;
+    [|unfold split; rewrite Hg, Ho; simpl; eauto].
+  destruct (Inv_origin _ _ _ _ _ HI Hg Ho) as (rg & Hin & Ht & Hl & Hrs & Hgs & _).
+  rewrite (split_origin _ _ _ _ _ _ HI Hg Hin Ht Hl Hrs Hgs Ho). cbn [lift_grid fst].
+  exists (remove_reg rg regs). apply split_Inv_at; auto.
+Qed.
+
+(* ================================================================== merge *)
+(** the block spanned by two corner cells, whatever their orientation *)
+Definition merge_rect (r1 c1 r2 c2 : nat) : region :=
+  mkReg (Nat.min r1 r2) (Nat.min c1 c2)
+        (S (Nat.max r1 r2 - Nat.min r1 r2)) (S (Nat.max c1 c2 - Nat.min c1 c2)).
+
+Definition origin_paras_of (g : list (list cell)) (rg : region) : list str :=
+  match range_cells g (rtop rg) (rleft rg) (rh rg) (rw rg) with
+  | o :: rest => merged_paras (paras o) (map paras rest)
+  | [] => [[]]
+  end.
+
+Lemma merge_eq g r1 c1 r2 c2 a b :
+  get g r1 c1 = Some a -> get g r2 c2 = Some b ->
+  merge g r1 c1 r2 c2 =
+    let rg := merge_rect r1 c1 r2 c2 in
+    if contains_merged_cell g (rtop rg) (rleft rg) (rh rg) (rw rg) then Err ValueErr
+    else if existsb has_no_paras (range_cells g (rtop rg) (rleft rg) (rh rg) (rw rg)) then Err OtherErr
+    else Ok (map_grid (merge_cell (rtop rg) (rleft rg) (rh rg) (rw rg) (origin_paras_of g rg)) g).
+Proof.
+  intros Ha Hb. unfold merge. rewrite Ha, Hb. rewrite !start_and_size_spec. reflexivity.
+Qed.
+
+Lemma merge_rect_dims n g r1 c1 r2 c2 a b :
+  rect_grid n g -> get g r1 c1 = Some a -> get g r2 c2 = Some b ->
+  let rg := merge_rect r1 c1 r2 c2 in
+  1 <= rh rg /\ 1 <= rw rg /\ rtop rg + rh rg <= length g /\ rleft rg + rw rg <= n /\
+  in_reg rg r1 c1 = true /\ in_reg rg r2 c2 = true.
+Proof.
+  intros HR Ha Hb. destruct (get_Some_lt _ _ _ _ _ HR Ha). destruct (get_Some_lt _ _ _ _ _ HR Hb).
+  unfold merge_rect, in_reg; simpl. rewrite !in_rect_spec. lia.
+Qed.
+
+Lemma contains_false g top lft h w :
+  contains_merged_cell g top lft h w = false ->
+  forall r c cl, in_rect top lft h w r c = true -> get g r c = Some cl -> is_merged cl = false.
+Proof.
+  unfold contains_merged_cell. intros H r c cl Hin Hg.
+  destruct (is_merged cl) eqn:E; auto.
+  assert (existsb is_merged (range_cells g top lft h w) = true); [|congruence].
+  apply existsb_exists. exists cl. split; auto. apply in_range_cells. eauto.
+Qed.
+
+Lemma contains_true g top lft h w :
+  contains_merged_cell g top lft h w = true ->
+  exists r c cl, in_rect top lft h w r c = true /\ get g r c = Some cl /\ is_merged cl = true.
+Proof.
+  unfold contains_merged_cell. intros H. apply existsb_exists in H as [cl [Hin Hm]].
+  apply in_range_cells in Hin as (r & c & H1 & H2). eauto 6.
+Qed.
+
+Lemma existsb_false_forall {A} (f : A -> bool) l :
+  existsb f l = false <-> (forall x, In x l -> f x = false).
+Proof.
+  split.
+  - intros H x Hx. destruct (f x) eqn:E; auto.
+    assert (existsb f l = true) by (apply existsb_exists; eauto). congruence.
+  - intros H. destruct (existsb f l) eqn:E; auto.
+    apply existsb_exists in E as [x [Hx Hf]]. rewrite (H x Hx) in Hf. discriminate.
+Qed.
+
+Lemma append_ps_nonnil o s : o <> [] -> fst (append_ps o s) <> [].
+Proof.
+  intros Ho. unfold append_ps. destruct (tb_is_empty s); simpl; auto.
+  destruct (if tb_is_empty o then [] else o) eqn:E1; simpl.
+  - destruct s; simpl; discriminate.
+  - discriminate.
+Qed.
+
+Lemma merged_paras_nonnil o ss : o <> [] -> merged_paras o ss <> [].
+Proof.
+  unfold merged_paras. revert o. induction ss as [|s ss IH]; simpl; auto.
+  intros o Ho. apply IH. apply append_ps_nonnil; auto.
+Qed.
+
+Lemma tb_is_empty_spec s : tb_is_empty s = true -> s = [[]].
+Proof. destruct s as [|[|x p] [|q s]]; simpl; intros; try discriminate; reflexivity. Qed.
+
+Lemma src_after_spec s : src_after s = [[]].
+Proof.
+  unfold src_after, append_ps. destruct (tb_is_empty s) eqn:E; simpl; auto.
+  apply tb_is_empty_spec; auto.
+Qed.
+
+Lemma merge_cell_out top lft h w op r c cl :
+  in_rect top lft h w r c = false -> merge_cell top lft h w op r c cl = cl.
+Proof. unfold merge_cell. intros ->. reflexivity. Qed.
+
+Lemma merge_cell_flags_in top lft h w op r c cl :
+  in_rect top lft h w r c = true -> cell_flags cl = plain_flags ->
+  cell_flags (merge_cell top lft h w op r c cl) = region_flags (mkReg top lft h w) r c.
+Proof.
+  unfold merge_cell. intros -> Hp. unfold cell_flags, plain_flags in Hp.
+  injection Hp as Hg Hr Hh Hv.
+  unfold cell_flags, region_flags; simpl. rewrite Hg, Hr, Hh, Hv.
+  destruct (c =? lft), (r =? top), (lft <? c), (top <? r); reflexivity.
+Qed.
+
+Lemma origin_paras_nonnil g rg :
+  existsb has_no_paras (range_cells g (rtop rg) (rleft rg) (rh rg) (rw rg)) = false ->
+  origin_paras_of g rg <> [].
+Proof.
+  intros H. unfold origin_paras_of.
+  destruct (range_cells g (rtop rg) (rleft rg) (rh rg) (rw rg)) as [|o rest]; [discriminate|].
+  apply merged_paras_nonnil. simpl in H. apply orb_false_iff in H as [H _].
+  unfold has_no_paras in H. destruct (paras o); [discriminate|discriminate].
+Qed.
+
+Lemma Inv_no_empty_paras t regs top lft h w :
+  Inv_at t regs -> existsb has_no_paras (range_cells (grid t) top lft h w) = false.
+Proof.
+  intros (_ & _ & HP & _). apply existsb_false_forall. intros cl Hin.
+  apply in_range_cells in Hin as (r & c & _ & Hg). specialize (HP _ _ _ Hg).
+  unfold has_no_paras. destruct (paras cl); congruence.
+Qed.
+
+(** the regions after an accepted merge of the block [rg] *)
+Definition add_reg (rg : region) (regs : list region) : list region :=
+  if (rh rg =? 1) && (rw rg =? 1) then regs else rg :: regs.
+
+Lemma merge_accepted_Inv t regs rg op :
+  Inv_at t regs ->
+  1 <= rh rg -> 1 <= rw rg -> rtop rg + rh rg <= length (grid t) -> rleft rg + rw rg <= length (widths t) ->
+  contains_merged_cell (grid t) (rtop rg) (rleft rg) (rh rg) (rw rg) = false ->
+  op <> [] ->
+  Inv_at (with_grid t (map_grid (merge_cell (rtop rg) (rleft rg) (rh rg) (rw rg) op) (grid t)))
+         (add_reg rg regs).
+Proof.
+  intros HI H1 H2 H3 H4 Hc Hop.
+  assert (Hplain : forall r c cl, in_reg rg r c = true -> get (grid t) r c = Some cl ->
+             find (fun x => in_reg x r c) regs = None /\ cell_flags cl = plain_flags).
+  { intros r c cl Hin Hg. apply (Inv_unmerged_plain t regs r c cl HI Hg).
+    eapply contains_false; eauto. }
+  assert (Hfree : forall r c x, in_reg rg r c = true -> In x regs -> in_reg x r c = false).
+  { intros r c x Hin Hx.
+    destruct HI as (HR & _).
+    unfold in_reg in Hin. pose proof Hin as Hin'. apply in_rect_spec in Hin'.
+    destruct (get_lt_Some _ (grid t) r c HR) as [cl Hg]; try lia.
+    destruct (Hplain r c cl Hin Hg) as [Hn _].
+    apply (proj1 (find_none_iff _ _) Hn x Hx). }
+  destruct HI as (HR & HL & HP & Hok & Hnd & Hdj & Hfl).
+  unfold Inv_at, with_grid; cbn [grid widths heights]. rewrite length_map_grid.
+  split; [apply rect_map_grid; exact HR|]. split; [exact HL|].
+  split.
+  { intros r c cl Hg. rewrite get_map_grid in Hg.
+    destruct (get (grid t) r c) as [cl0|] eqn:E; simpl in Hg; [|discriminate].
+    injection Hg as <-. unfold merge_cell.
+    destruct (in_rect (rtop rg) (rleft rg) (rh rg) (rw rg) r c); [|eapply HP; eauto].
+    simpl. destruct ((r =? rtop rg) && (c =? rleft rg)); auto.
+    rewrite src_after_spec. discriminate. }
+  unfold add_reg.
+  destruct ((rh rg =? 1) && (rw rg =? 1)) eqn:Htriv.
+  - (* a one-cell block: nothing changes in the attributes *)
+    apply andb_true_iff in Htriv as [Eh Ew]. apply Nat.eqb_eq in Eh, Ew.
+    split; [exact Hok|]. split; [exact Hnd|]. split; [exact Hdj|].
+    intros r c cl Hg. rewrite get_map_grid in Hg.
+    destruct (get (grid t) r c) as [cl0|] eqn:E; simpl in Hg; [|discriminate].
+    injection Hg as <-.
+    destruct (in_rect (rtop rg) (rleft rg) (rh rg) (rw rg) r c) eqn:Hin.
+    + destruct (Hplain r c cl0 Hin E) as [Hn Hp].
+      destruct rg as [tp lf hh ww]; simpl in *.
+      rewrite (merge_cell_flags_in _ _ _ _ _ _ _ _ Hin Hp).
+      unfold expected. rewrite Hn. apply in_rect_spec in Hin. subst hh ww.
+      unfold region_flags, plain_flags; simpl.
+      replace (c =? lf) with true by (symmetry; apply Nat.eqb_eq; lia).
+      replace (r =? tp) with true by (symmetry; apply Nat.eqb_eq; lia).
+      replace (lf <? c) with false by (symmetry; apply Nat.ltb_ge; lia).
+      replace (tp <? r) with false by (symmetry; apply Nat.ltb_ge; lia). reflexivity.
+    + rewrite merge_cell_out by exact Hin. apply (Hfl _ _ _ E).
+  - (* a real block becomes a new region *)
+    assert (Hnt : 1 < rh rg \/ 1 < rw rg).
+    { apply andb_false_iff in Htriv as [E|E]; apply Nat.eqb_neq in E; lia. }
+    assert (Horg : in_reg rg (rtop rg) (rleft rg) = true).
+    { unfold in_reg. apply in_rect_spec. lia. }
+    split.
+    { constructor; auto. unfold reg_ok. auto 6. }
+    split.
+    { constructor; auto. intros Hin. rewrite (Hfree _ _ rg Horg Hin) in Horg. discriminate. }
+    split.
+    { intros a b [<-|Ha] [<-|Hb] Hne r c Hin.
+      - congruence.
+      - apply (Hfree r c b Hin Hb).
+      - destruct (in_reg rg r c) eqn:E; auto. rewrite (Hfree r c a E Ha) in Hin. discriminate.
+      - apply (Hdj a b Ha Hb Hne r c Hin). }
+    intros r c cl Hg. rewrite get_map_grid in Hg.
+    destruct (get (grid t) r c) as [cl0|] eqn:E; simpl in Hg; [|discriminate].
+    injection Hg as <-. unfold expected. simpl find.
+    destruct (in_reg rg r c) eqn:Hin.
+    + destruct (Hplain r c cl0 Hin E) as [_ Hp].
+      destruct rg as [tp lf hh ww]. unfold in_reg in Hin. simpl in *.
+      apply (merge_cell_flags_in _ _ _ _ _ _ _ _ Hin Hp).
+    + unfold in_reg in Hin. rewrite merge_cell_out by exact Hin. apply (Hfl _ _ _ E).
+Qed.
+
+Lemma step_Merge_Inv t regs r1 c1 r2 c2 :
+  Inv_at t regs -> exists regs', Inv_at (fst (step t (Merge r1 c1 r2 c2))) regs'.
+Proof.
+  intros HI. simpl.
+  destruct (get (grid t) r1 c1) as [a|] eqn:Ha; [|unfold merge; rewrite Ha; simpl; eauto].
+  destruct (get (grid t) r2 c2) as [b|] eqn:Hb; [|unfold merge; rewrite Ha, Hb; simpl; eauto].
+  rewrite (merge_eq _ _ _ _ _ _ _ Ha Hb). cbv zeta.
+  set (rg := merge_rect r1 c1 r2 c2).
+  destruct (contains_merged_cell _ _ _ _ _) eqn:Hc; [simpl; eauto|].
+  rewrite (Inv_no_empty_paras _ _ _ _ _ _ HI). cbn [lift_grid fst].
+  pose proof HI as (HR & _).
+  destruct (merge_rect_dims _ _ _ _ _ _ _ _ HR Ha Hb) as (H1 & H2 & H3 & H4 & _).
+  exists (add_reg rg regs). apply merge_accepted_Inv; auto.
+  apply origin_paras_nonnil. apply (Inv_no_empty_paras _ _ _ _ _ _ HI).
+Qed.
+
+(* ================================================================== C14_inv *)
+Lemma step_Inv t o : Inv t -> Inv (fst (step t o)).
+Proof.
+  intros [regs HI]. destruct o.
+  - apply (step_Merge_Inv _ _ _ _ _ _ HI).
+  - exists regs. rewrite (proj1 (step_MergeForeign t r c)). exact HI.
+  - apply (step_Split_Inv _ _ _ _ HI).
+  - exists regs. apply step_SetRowH_Inv; auto.
+  - exists regs. apply step_SetColW_Inv; auto.
+  - exists regs. apply step_SetText_Inv; auto.
+Qed.
+
+Lemma run_ops_Inv ops : forall t, Inv t -> Inv (run_ops t ops).
+Proof.
+  unfold run_ops. induction ops as [|o ops IH]; simpl; auto.
+  intros t HI. apply IH. apply step_Inv; auto.
+Qed.
+
+Lemma merge_length g r1 c1 r2 c2 g' : merge g r1 c1 r2 c2 = Ok g' -> length g' = length g.
+Proof.
+  unfold merge. destruct (get g r1 c1); [|discriminate]. destruct (get g r2 c2); [|discriminate].
+  destruct (start_and_size c1 c2) as [lft w]. destruct (start_and_size r1 r2) as [top h].
+  destruct (contains_merged_cell _ _ _ _ _); [discriminate|].
+  destruct (existsb _ _); [discriminate|].
+  intros E; injection E as <-. apply length_map_grid.
+Qed.
+
+Lemma split_length g r c g' : split g r c = Ok g' -> length g' = length g.
+Proof.
+  unfold split. destruct (get g r c) as [cl|]; [|discriminate].
+  destruct (negb _); [discriminate|]. destruct (_ || _); [discriminate|].
+  destruct (get g _ _); [|discriminate].
+  intros E; injection E as <-. apply length_map_grid.
+Qed.
+
+Lemma set_text_length g r c s g' : set_text g r c s = Ok g' -> length g' = length g.
+Proof.
+  unfold set_text. destruct (get g r c); [|discriminate].
+  intros E; injection E as <-. apply length_map_grid.
+Qed.
+
+Lemma step_dims t o :
+  length (grid (fst (step t o))) = length (grid t) /\
+  length (widths (fst (step t o))) = length (widths t) /\
+  length (heights (fst (step t o))) = length (heights t).
+Proof.
+  destruct o; simpl.
+  - destruct (merge _ _ _ _ _) eqn:E; simpl; auto. apply merge_length in E. auto.
+  - destruct (merge_foreign _ _ _) eqn:E; simpl; auto.
+    unfold merge_foreign in E. destruct (get _ _ _); discriminate.
+  - destruct (split _ _ _) eqn:E; simpl; auto. apply split_length in E. auto.
+  - unfold set_row_h. destruct (_ <? _); auto. destruct (in_coord _); auto.
+    destruct (in_poscoord _); simpl; rewrite length_set_nth; auto.
+  - unfold set_col_w. destruct (_ <? _); auto. destruct (in_coord _); auto.
+    destruct (in_poscoord _); simpl; rewrite length_set_nth; auto.
+  - destruct (set_text _ _ _ _) eqn:E; simpl; auto. apply set_text_length in E. auto.
+Qed.
+
+Lemma run_ops_dims ops : forall t,
+  length (grid (run_ops t ops)) = length (grid t) /\
+  length (widths (run_ops t ops)) = length (widths t) /\
+  length (heights (run_ops t ops)) = length (heights t).
+Proof.
+  unfold run_ops. induction ops as [|o ops IH]; simpl; auto.
+  intros t. destruct (IH (fst (step t o))) as (-> & -> & ->). apply step_dims.
+Qed.
+
+(** every row keeps exactly as many cells as there are grid columns, and the row and
+    column counts never change, along any history from a freshly created table *)
+Lemma run_ops_rectangular rows cols w h t ops :
+  new_tbl rows cols w h = Ok t ->
+  let t' := run_ops t ops in
+  Inv t' /\ length (grid t') = rows /\ Forall (fun row => length row = cols) (grid t') /\
+  length (widths t') = cols /\ length (heights t') = rows.
+Proof.
+  intros Hn. apply new_tbl_spec in Hn as (_ & _ & Hg & _ & Hw & Hh & _ & _ & _ & _ & _ & HI).
+  assert (HI0 : Inv t) by (exists []; exact HI). clear HI.
+  cbv zeta. destruct (run_ops_dims ops t) as (Eg & Ew & Eh).
+  pose proof (run_ops_Inv ops t HI0) as HI.
+  split; [exact HI|]. destruct HI as [regs (HR & _)].
+  rewrite Ew, Hw in HR. unfold rect_grid in HR.
+  split; [congruence|]. split; [exact HR|]. split; congruence.
+Qed.
+
+(* ================================================================== C14_refuse / C14_split *)
+(** the block [rg] shares a cell with one of the merged regions *)
+Definition overlaps (regs : list region) (rg : region) : Prop :=
+  exists x r c, In x regs /\ in_reg x r c = true /\ in_reg rg r c = true.
+
+Lemma plain_not_merged cl : cell_flags cl = plain_flags -> is_merged cl = false.
+Proof.
+  unfold cell_flags, plain_flags. intros H. injection H as Hg Hr Hh Hv.
+  unfold is_merged. rewrite Hg, Hr, Hh, Hv. reflexivity.
+Qed.
+
+(** A merge is refused exactly when its block touches an existing merged region; a
+    refused merge raises ValueError and leaves the table as it was; an accepted one
+    makes the block a region (unless it is a single cell). *)
+Lemma merge_behaviour t regs r1 c1 r2 c2 a b :
+  Inv_at t regs -> get (grid t) r1 c1 = Some a -> get (grid t) r2 c2 = Some b ->
+  let rg := merge_rect r1 c1 r2 c2 in
+  (overlaps regs rg /\ step t (Merge r1 c1 r2 c2) = (t, Err ValueErr)) \/
+  (~ overlaps regs rg /\
+   exists g', merge (grid t) r1 c1 r2 c2 = Ok g' /\
+              step t (Merge r1 c1 r2 c2) = (with_grid t g', Ok tt) /\
+              Inv_at (with_grid t g') (add_reg rg regs)).
+Proof.
+  intros HI Ha Hb rg. simpl step.
+  rewrite (merge_eq _ _ _ _ _ _ _ Ha Hb). cbv zeta. fold rg.
+  pose proof HI as (HR & _).
+  destruct (merge_rect_dims _ _ _ _ _ _ _ _ HR Ha Hb) as (H1 & H2 & H3 & H4 & _). fold rg in H1, H2, H3, H4.
+  destruct (contains_merged_cell _ _ _ _ _) eqn:Hc.
+  - left. split; [|reflexivity].
+    apply contains_true in Hc as (r & c & cl & Hin & Hg & Hm).
+    pose proof HI as (_ & _ & _ & _ & _ & _ & Hfl). specialize (Hfl _ _ _ Hg). unfold expected in Hfl.
+    destruct (find (fun x => in_reg x r c) regs) as [x|] eqn:E.
+    + apply find_some in E as [Hx Hxr]. exists x, r, c. auto.
+    + rewrite (plain_not_merged _ Hfl) in Hm. discriminate.
+  - right. split.
+    + intros (x & r & c & Hx & Hxr & Hrg).
+      unfold in_reg in Hrg. pose proof Hrg as Hrg'. apply in_rect_spec in Hrg'.
+      destruct (get_lt_Some _ (grid t) r c HR) as [cl Hg]; try lia.
+      pose proof (contains_false _ _ _ _ _ Hc r c cl Hrg Hg) as Hm.
+      destruct (Inv_unmerged_plain t regs r c cl HI Hg Hm) as [Hn _].
+      rewrite (proj1 (find_none_iff _ _) Hn x Hx) in Hxr. discriminate.
+    + rewrite (Inv_no_empty_paras _ _ _ _ _ _ HI).
+      eexists. split; [reflexivity|]. split; [reflexivity|].
+      apply merge_accepted_Inv; auto.
+      apply origin_paras_nonnil. apply (Inv_no_empty_paras _ _ _ _ _ _ HI).
+Qed.
+
+Lemma merge_index_error t r1 c1 r2 c2 :
+  get (grid t) r1 c1 = None \/ get (grid t) r2 c2 = None ->
+  step t (Merge r1 c1 r2 c2) = (t, Err IndexErr).
+Proof.
+  simpl. unfold merge. intros [H|H].
+  - rewrite H. reflexivity.
+  - rewrite H. destruct (get (grid t) r1 c1); reflexivity.
+Qed.
+
+Lemma merge_foreign_refused t r c cl :
+  get (grid t) r c = Some cl -> step t (MergeForeign r c) = (t, Err ValueErr).
+Proof. simpl. unfold merge_foreign. intros ->. reflexivity. Qed.
+
+(** the region whose origin is (r, c) is the one [find] returns there *)
+Lemma origin_find t regs rg :
+  Inv_at t regs -> In rg regs ->
+  find (fun x => in_reg x (rtop rg) (rleft rg)) regs = Some rg.
+Proof.
+  intros (_ & _ & _ & Hok & _ & Hdj & _) Hin.
+  rewrite Forall_forall in Hok. destruct (Hok _ Hin) as (H1 & H2 & _).
+  assert (Horg : in_reg rg (rtop rg) (rleft rg) = true) by (apply in_rect_spec; lia).
+  destruct (find (fun x => in_reg x (rtop rg) (rleft rg)) regs) as [x|] eqn:E.
+  - apply find_some in E as [Hx Hxr].
+    destruct (region_eq_dec x rg) as [->|Hne]; auto.
+    rewrite (Hdj x rg Hx Hin Hne _ _ Hxr) in Horg. discriminate.
+  - rewrite (proj1 (find_none_iff _ _) E rg Hin) in Horg. discriminate.
+Qed.
+
+(** Split succeeds exactly on the origin of a merged region: every cell of that region
+    gets its four attributes reset (paragraphs kept), nothing else changes, and the
+    region disappears from the list.  Anywhere else it raises ValueError and changes
+    nothing. *)
+Lemma split_behaviour t regs r c cl :
+  Inv_at t regs -> get (grid t) r c = Some cl ->
+  (exists rg, In rg regs /\ rtop rg = r /\ rleft rg = c /\
+     let g' := map_grid (fun r' c' cl' => if in_reg rg r' c' then plain_cell cl' else cl') (grid t) in
+     step t (Split r c) = (with_grid t g', Ok tt) /\
+     Inv_at (with_grid t g') (remove_reg rg regs) /\
+     (forall r' c', get g' r' c' =
+        if in_reg rg r' c' then option_map plain_cell (get (grid t) r' c') else get (grid t) r' c'))
+  \/
+  ((forall rg, In rg regs -> ~ (rtop rg = r /\ rleft rg = c)) /\
+   step t (Split r c) = (t, Err ValueErr)).
+Proof.
+  intros HI Hg. destruct (is_merge_origin cl) eqn:Ho.
+  - left. destruct (Inv_origin _ _ _ _ _ HI Hg Ho) as (rg & Hin & Ht & Hl & Hrs & Hgs & _).
+    exists rg. split; auto. split; auto. split; auto. cbv zeta.
+    split.
+    { simpl step. rewrite (split_origin _ _ _ _ _ _ HI Hg Hin Ht Hl Hrs Hgs Ho). reflexivity. }
+    split; [apply split_Inv_at; auto|].
+    intros r' c'. rewrite get_map_grid.
+    destruct (get (grid t) r' c'); simpl; destruct (in_reg rg r' c'); reflexivity.
+  - right. split.
+    + intros rg Hin [Ht Hl]. pose proof (Inv_observers _ _ _ _ _ HI Hg) as Hobs.
+      subst r c. rewrite (origin_find _ _ _ HI Hin) in Hobs.
+      rewrite !Nat.eqb_refl in Hobs. simpl in Hobs. destruct Hobs as [Hobs _]. congruence.
+    + simpl. unfold split. rewrite Hg, Ho. reflexivity.
+Qed.
+
+Lemma split_index_error t r c :
+  get (grid t) r c = None -> step t (Split r c) = (t, Err IndexErr).
+Proof. simpl. unfold split. intros ->. reflexivity. Qed.
+
+(* ================================================================== C14_text *)
+Definition nonempty_str (s : str) : bool := match s with [] => false | _ => true end.
+
+(** the non-empty paragraphs of a list of cells, in order *)
+Definition texts (cs : list cell) : list str := filter nonempty_str (concat (map paras cs)).
+
+Lemma texts_app a b : texts (a ++ b) = texts a ++ texts b.
+Proof. unfold texts. rewrite map_app, concat_app, filter_app. reflexivity. Qed.
+
+Lemma texts_cons c l : texts (c :: l) = filter nonempty_str (paras c) ++ texts l.
+Proof. unfold texts. simpl. rewrite filter_app. reflexivity. Qed.
+
+Lemma filter_unclear l : filter nonempty_str (unclear l) = filter nonempty_str l.
+Proof. destruct l; reflexivity. Qed.
+
+Lemma append_ps_texts o s :
+  filter nonempty_str (fst (append_ps o s)) = filter nonempty_str o ++ filter nonempty_str s.
+Proof.
+  unfold append_ps. destruct (tb_is_empty s) eqn:Es.
+  - apply tb_is_empty_spec in Es. subst s. simpl. rewrite app_nil_r. reflexivity.
+  - cbn [fst]. rewrite filter_unclear, filter_app. f_equal.
+    destruct (tb_is_empty o) eqn:Eo; auto. apply tb_is_empty_spec in Eo. subst o. reflexivity.
+Qed.
+
+Lemma merged_paras_texts ss : forall o,
+  filter nonempty_str (merged_paras o ss) = filter nonempty_str (o ++ concat ss).
+Proof.
+  unfold merged_paras. induction ss as [|s ss IH]; intros o; simpl.
+  - rewrite app_nil_r. reflexivity.
+  - rewrite IH. rewrite !filter_app, append_ps_texts. rewrite app_assoc. reflexivity.
+Qed.
+
+Definition cells_at (g : list (list cell)) (coords : list (nat * nat)) : list cell :=
+  flat_map (fun rc => match get g (fst rc) (snd rc) with Some cl => [cl] | None => [] end) coords.
+
+Lemma texts_cells_at_nil g coords :
+  (forall r c cl, In (r, c) coords -> get g r c = Some cl -> paras cl = [[]]) ->
+  texts (cells_at g coords) = [].
+Proof.
+  intros H. induction coords as [|[r c] l IH]; simpl; auto.
+  unfold cells_at in *. simpl. rewrite texts_app, IH.
+  - rewrite app_nil_r. destruct (get g r c) as [cl|] eqn:E; auto.
+    unfold texts. simpl. rewrite (H r c cl); simpl; auto.
+  - intros r' c' cl Hin. apply H. simpl; auto.
+Qed.
+
+(** After an accepted merge: the origin cell holds every non-empty paragraph of the
+    block in reading order (nothing lost, nothing twice), every other cell of the
+    block holds a single empty paragraph, and cells outside the block are untouched. *)
+Lemma merge_text n g r1 c1 r2 c2 a b g' :
+  rect_grid n g -> get g r1 c1 = Some a -> get g r2 c2 = Some b ->
+  merge g r1 c1 r2 c2 = Ok g' ->
+  let rg := merge_rect r1 c1 r2 c2 in
+  let block g := range_cells g (rtop rg) (rleft rg) (rh rg) (rw rg) in
+  (exists o', get g' (rtop rg) (rleft rg) = Some o' /\
+              filter nonempty_str (paras o') = texts (block g)) /\
+  (forall r c cl', in_reg rg r c = true -> (r, c) <> (rtop rg, rleft rg) ->
+                   get g' r c = Some cl' -> paras cl' = [[]]) /\
+  (forall r c, in_reg rg r c = false -> get g' r c = get g r c) /\
+  texts (block g') = texts (block g).
+Proof.
+  intros HR Ha Hb Hm rg block.
+  rewrite (merge_eq _ _ _ _ _ _ _ Ha Hb) in Hm. cbv zeta in Hm. fold rg in Hm.
+  destruct (merge_rect_dims _ _ _ _ _ _ _ _ HR Ha Hb) as (H1 & H2 & H3 & H4 & _). fold rg in H1, H2, H3, H4.
+  (* shape of the block: origin first *)
+  assert (Hshape : exists rest,
+             rect_coords (rtop rg) (rleft rg) (rh rg) (rw rg) = (rtop rg, rleft rg) :: rest /\
+             forall r c, In (r, c) rest ->
+               in_rect (rtop rg) (rleft rg) (rh rg) (rw rg) r c = true /\ (r =? rtop rg) && (c =? rleft rg) = false).
+  { unfold rg, merge_rect; simpl. apply rect_coords_cons. }
+  clearbody rg.
+  destruct (contains_merged_cell _ _ _ _ _); [discriminate|].
+  destruct (existsb has_no_paras _); [discriminate|].
+  injection Hm as <-.
+  assert (Hget : forall r c, get (map_grid (merge_cell (rtop rg) (rleft rg) (rh rg) (rw rg) (origin_paras_of g rg)) g) r c
+                 = option_map (merge_cell (rtop rg) (rleft rg) (rh rg) (rw rg) (origin_paras_of g rg) r c) (get g r c))
+    by (intros; apply get_map_grid).
+  destruct (get_lt_Some _ g (rtop rg) (rleft rg) HR) as [o Ho]; try lia.
+  destruct Hshape as (rest & Hcoords & Hrest).
+  assert (Horg_in : in_rect (rtop rg) (rleft rg) (rh rg) (rw rg) (rtop rg) (rleft rg) = true)
+    by (apply in_rect_spec; lia).
+  assert (Hblock : block g = o :: cells_at g rest).
+  { unfold block, range_cells. rewrite Hcoords. simpl. rewrite Ho. reflexivity. }
+  assert (Hop : filter nonempty_str (origin_paras_of g rg) = texts (block g)).
+  { unfold origin_paras_of. fold (block g). rewrite Hblock.
+    rewrite merged_paras_texts. unfold texts. simpl. reflexivity. }
+  assert (Hothers : forall r c cl', in_rect (rtop rg) (rleft rg) (rh rg) (rw rg) r c = true ->
+             (r =? rtop rg) && (c =? rleft rg) = false ->
+             get (map_grid (merge_cell (rtop rg) (rleft rg) (rh rg) (rw rg) (origin_paras_of g rg)) g) r c = Some cl' ->
+             paras cl' = [[]]).
+  { intros r c cl' Hin Hne Hg. rewrite Hget in Hg.
+    destruct (get g r c) as [cl0|]; simpl in Hg; [|discriminate]. injection Hg as <-.
+    unfold merge_cell. rewrite Hin, Hne. simpl. apply src_after_spec. }
+  split.
+  { eexists. split.
+    - rewrite Hget, Ho. simpl. reflexivity.
+    - unfold merge_cell. rewrite Horg_in, !Nat.eqb_refl. simpl. exact Hop. }
+  split.
+  { intros r c cl' Hin Hne Hg. apply (Hothers r c cl' Hin); auto.
+    destruct (Nat.eqb_spec r (rtop rg)), (Nat.eqb_spec c (rleft rg)); simpl; auto. congruence. }
+  split.
+  { intros r c Hout. rewrite Hget. unfold in_reg in Hout.
+    destruct (get g r c); simpl; auto. rewrite merge_cell_out; auto. }
+  unfold block at 1. unfold range_cells. rewrite Hcoords. simpl.
+  rewrite Hget, Ho. simpl. rewrite texts_cons.
+  fold (cells_at (map_grid (merge_cell (rtop rg) (rleft rg) (rh rg) (rw rg) (origin_paras_of g rg)) g) rest).
+  rewrite texts_cells_at_nil.
+  - rewrite app_nil_r.
+    unfold merge_cell. rewrite Horg_in, !Nat.eqb_refl. simpl. exact Hop.
+  - intros r c cl' Hin Hg. destruct (Hrest r c Hin) as [Hi Hne]. apply (Hothers r c cl' Hi Hne Hg).
 Qed.
